@@ -10,6 +10,9 @@ import (
 	"time"
 )
 
+// maxRecordSize is the maximum size of one history record in the file.
+const maxRecordSize = 1 << 30
+
 var (
 	errOpenHistoryFile = errors.New("failed to open history file")
 	errNegativeIndex   = errors.New("cannot use a negative index when requesting historic commands")
@@ -46,7 +49,11 @@ func openHist(filename string) (list []Item, err error) {
 		return list, fmt.Errorf("%w: %s", errOpenHistoryFile, err.Error())
 	}
 
+	// Lines are not limited in size: the default scanner buffer would silently
+	// stop the loading at the first record longer than 64 KiB.
 	scanner := bufio.NewScanner(file)
+	scanner.Buffer(make([]byte, 0, bufio.MaxScanTokenSize), maxRecordSize)
+
 	for scanner.Scan() {
 		var item Item
 
